@@ -58,7 +58,9 @@ func traverse(context Context, matchingNode *CandidateNode, operation *Operation
 
 	case SequenceNode:
 		log.Debug("its a sequence of %v things!", len(matchingNode.Content))
-		return traverseArray(matchingNode, operation, operation.Preferences.(traversePreferences))
+		prefs := operation.Preferences.(traversePreferences)
+		prefs.DontAutoCreate = prefs.DontAutoCreate || context.DontAutoCreate
+		return traverseArray(matchingNode, operation, prefs)
 
 	case AliasNode:
 		log.Debug("its an alias!")
@@ -129,7 +131,8 @@ func traverseNodesWithArrayIndices(context Context, indicesToTraverse []*Candida
 }
 
 func traverseArrayIndices(context Context, matchingNode *CandidateNode, indicesToTraverse []*CandidateNode, prefs traversePreferences) (*list.List, error) { // call this if doc / alias like the other traverse
-	if matchingNode.Tag == "!!null" {
+	prefs.DontAutoCreate = prefs.DontAutoCreate || context.DontAutoCreate
+	if matchingNode.Tag == "!!null" && !prefs.DontAutoCreate {
 		log.Debugf("OperatorArrayTraverse got a null - turning it into an empty array")
 		// auto vivification
 		matchingNode.Tag = ""
@@ -199,6 +202,10 @@ func traverseArrayWithIndices(node *CandidateNode, indices []*CandidateNode, pre
 		}
 		indexToUse := index
 		contentLength := len(node.Content)
+		if prefs.DontAutoCreate && contentLength <= index {
+			// reading past the end: nothing there, and nothing to create
+			continue
+		}
 		for contentLength <= index {
 			if contentLength == 0 {
 				// default to nice yaml formatting
